@@ -150,7 +150,14 @@ pub fn serve<F: FnMut(&serde_json::Value) -> serde_json::Value>(mut f: F) {
     use std::io::{BufRead, Write};
     let stdin = std::io::stdin();
     let stdout = std::io::stdout();
+    // a worker retires after GVH_MAX_JOBS jobs (the driver starts another one for the rest): VMs that cannot be dropped
+    // (see the harness notes on leaked VMs) must not add up over thousands of jobs
+    let max_jobs: usize = std::env::var("GVH_MAX_JOBS").ok().and_then(|v| v.parse().ok()).unwrap_or(usize::MAX);
+    let mut handled = 0usize;
     for line in stdin.lock().lines() {
+        if handled >= max_jobs {
+            break;
+        }
         let line = match line {
             Ok(l) => l,
             Err(_) => break,
@@ -171,6 +178,7 @@ pub fn serve<F: FnMut(&serde_json::Value) -> serde_json::Value>(mut f: F) {
         let mut o = stdout.lock();
         writeln!(o, "{}", r).unwrap();
         o.flush().unwrap();
+        handled += 1;
     }
 }
 
